@@ -329,7 +329,22 @@ func (e *Engine) checkProperty(verif, prop, tier string, t0 time.Time) int {
 			}
 		}
 		sort.Strings(dead)
+		if dead == nil {
+			dead = []string{}
+		}
 		ev.Coverage["dead_paths_other_than_select_panics"] = dead
+		okES, outES := e.externSanity(verif)
+		ev.Coverage["extern_contract_sanity"] = map[string]interface{}{"passed": okES, "output": outES,
+			"what": "the functional assumed contracts of spec/externs.spec (encoding/binary, bytes, net/netip, time.Duration, host/port text) executed against the installed standard library on 20000 random inputs"}
+		if !okES {
+			violations++
+			os.MkdirAll(replayDir, 0o755)
+			rp := filepath.Join(replayDir, "extern_contract_sanity.json")
+			rb, _ := json.MarshalIndent(map[string]interface{}{"property": prop, "obligation": "extern[contract sanity]", "output": outES}, "", " ")
+			os.WriteFile(rp, rb, 0o644)
+			fmt.Printf("VIOLATION property=%s replay=%s obligation=\"extern[an assumed contract of a dependency is refuted by the installed standard library]\" status=refuted no-failing-input-found\n", prop, rp)
+			ev.Violations = violations
+		}
 		if os.Getenv("CBV_NO_SELFTEST") == "" {
 			mr := e.selfTest(verif, prop)
 			killed := 0
